@@ -17,7 +17,7 @@ var h02Bounds = map[string]string{
 }
 
 var h04Bounds = map[string]string{
-	"H04":     "word lists: nine concrete lists of 1, 2, 3, 5, 7 words (ASCII, non-ASCII, with a word that does not change under title-casing, with a pre-capitalised word, with the empty word); Length 1..L (quick 2, thorough 4) and, on the first two lists with every scheme except 'random', Length 64..66 (thorough 63..70); the five capitalisation schemes and one unknown scheme string; separators: constant \"\", \"-\", \"→\", SFNone, SFDigits1, SFDigitsNoAmbiguous2 and a constructed function over the alphabet é✓!; every draw symbolic",
+	"H04":     "word lists: eleven concrete lists of 1, 2, 3, 5, 7 words (ASCII, non-ASCII, with a word that does not change under title-casing, with a pre-capitalised word, with leading punctuation, with multi-part words, with the empty word); Length 1..L (quick 2, thorough 4) and, on the first two lists with every scheme except 'random', Length 64..66 (thorough 63..70); the five capitalisation schemes and one unknown scheme string; separators: constant \"\", \"-\", \"→\", SFNone, SFDigits1, SFDigitsNoAmbiguous2 and a constructed function over the alphabet é✓!; every draw symbolic",
 	"outside": "lists of more than 7 words enter only through the bound n = Size(), which C01 covers for every n; lengths above L (in particular above 64); the 18 328-word shipped list is exercised concretely in C16",
 }
 
@@ -78,6 +78,22 @@ func propSpecs() map[string]*PropSpec {
 				{Name: "H04", Label: "long", Quick: P{"Lmin": 64, "L": 66, "lists": 2, "schemes": 5, "seps": 2}, Thorough: P{"Lmin": 63, "L": 70, "lists": 2, "schemes": 5, "seps": 2}, Reach: []string{"returned", "structure", "capitalised"}},
 			},
 			Bounds: h04Bounds,
+			Assume: append([]string{"bounded draws are summarised by the kernel contract verified by C01"}, commonAssume...),
+		},
+		{
+			ID: "C06", Sub: "spg", Level: "model_checking",
+			Harnesses: []HSpec{
+				{Name: "H06w", Quick: P{"L": 2}, Thorough: P{"L": 3}, Reach: []string{"compared"}},
+				{Name: "H06c", Quick: P{"allowmask": 12, "requiremask": 4, "excludemask": 16, "strings": 3, "reqsets": 8, "L": 2}, Thorough: P{"allowmask": 14, "requiremask": 12, "excludemask": 20, "strings": 5, "reqsets": 8, "L": 3}, Reach: []string{"computed", "primed"}},
+				{Name: "H02", Label: "entropy-field", Quick: P{"allowmask": 4, "requiremask": 4, "excludemask": 16, "strings": 2, "reqsets": 6, "L": 2, "T": 2}, Thorough: P{"allowmask": 12, "requiremask": 4, "excludemask": 16, "strings": 3, "reqsets": 8, "L": 2, "T": 2}, Reach: []string{"accepted"}},
+				{Name: "H04", Label: "entropy-field", Quick: P{"L": 2, "lists": 10}, Thorough: P{"L": 3, "lists": 10}, Reach: []string{"structure"}},
+			},
+			Bounds: map[string]string{
+				"H06w":    "nine word lists (1..7 words; with a word that does not change under title-casing, a pre-capitalised word, leading punctuation, multi-part words), Length 1..L (quick 2, thorough 3), all schemes, separator none / '-' / SFDigits1; two symbolic runs of Generate per recipe: equal token sequences must come from equal word and separator draws (and equal capitalisation draws when every word is capitalisable); Entropy() against log2 of the number of distinguishable draw vectors read off the draw log",
+				"H06c":    "the C02 recipe family: Entropy() against log2 of the exact number of valid strings (reference DP), optionally after a call on a sibling recipe whose RequireSets are re-split (joined by comma / blank, concatenated, one per character)",
+				"H02/H04": "Password.Entropy == recipe.Entropy() on every accepted path of the C02 and C04 harnesses",
+				"outside": "as C02/C04; the probability statement combines these solver results with C01/C02/C04 (uniform draws) by the counting argument in DESIGN.md §5 C06; log2 is the native math.Log2",
+			},
 			Assume: append([]string{"bounded draws are summarised by the kernel contract verified by C01"}, commonAssume...),
 		},
 		{
